@@ -10,5 +10,6 @@ import Helm.Props.C20
 #print axioms Helm.Props.C20.index_get_never_panics
 #print axioms Helm.Props.C20.index_load_with_nulls_never_panics
 #print axioms Helm.Props.C20.import_values_welltyped_ok
-#print axioms Helm.Props.C20.counterexample_import_values
+#print axioms Helm.Props.C20.import_values_never_panics
+#print axioms Helm.Props.C20.import_values_illtyped_is_error
 #print axioms Helm.Props.C20.archive_name_total
